@@ -277,7 +277,7 @@ func normRunCollect(c *vh.Ctx, rc *runCase, o *runOut) {
 	ndays := end.Z() - start.Z() + 1
 	// which entries of the day arrays are comparable
 	mask := 1 | 8 | 16
-	anyVerd, anySun := false, false
+	anyVerd, anySun := false, false // layout 0: the flags are part of the model (runPerYearL)
 	for i := range rc.S.Recs {
 		d := &rc.S.Recs[i]
 		if d.Date.Y < rc.startYear() {
@@ -287,16 +287,15 @@ func normRunCollect(c *vh.Ctx, rc *runCase, o *runOut) {
 		if raw[1] != wxNone && (L == 0 || raw[1] > 0) {
 			anyVerd = true
 		}
-		if raw[2] != wxNone {
-			anySun = true
-		}
+		_ = anySun
 	}
 	// LoadYear copies VERD / SUND only when the reader has seen the column (layouts 1, 2: hasSUND with the
 	// column, hasVERD with a positive value; layout 0: any value that is not the missing-value code)
-	if (L != 0 && rc.S.VerdCol && anyVerd) || (L == 0 && anyVerd) {
+	// (layout 0: the model carries the flags itself, year by year — runPerYearL)
+	if (L != 0 && rc.S.VerdCol && anyVerd) || L == 0 {
 		mask |= 2
 	}
-	if (L != 0 && rc.S.SunCol) || (L == 0 && anySun) {
+	if (L != 0 && rc.S.SunCol) || L == 0 {
 		mask |= 4
 	}
 	windOK := true
